@@ -77,7 +77,9 @@ pub fn hexb(b: &[u8]) -> String {
 }
 
 pub fn unhexb(f: &str) -> Result<Vec<u8>, String> {
-    let h = f.strip_prefix('x').ok_or_else(|| format!("not a string field: {f}"))?;
+    let h = f
+        .strip_prefix('x')
+        .ok_or_else(|| format!("not a string field: {f}"))?;
     if h.len() % 2 != 0 {
         return Err(format!("odd hex length: {f}"));
     }
@@ -102,7 +104,10 @@ fn dispatch(line: &str) -> Result<String, String> {
     let op = fields.next().unwrap_or("");
     let args: Vec<&str> = fields.collect();
     if op == "cfg" {
-        let a = args.iter().map(|f| unhex(f)).collect::<Result<Vec<_>, _>>()?;
+        let a = args
+            .iter()
+            .map(|f| unhex(f))
+            .collect::<Result<Vec<_>, _>>()?;
         let cfg = make_config(&a);
         CONFIG.with(|c| *c.borrow_mut() = Some(cfg));
         return Ok("ok".into());
